@@ -189,7 +189,8 @@ template<class T, class HF> struct Runner
          o << " I" << i << ":";
          if (it[i] == NULL) {o << "-"; continue;}
          const typename BaseT::IteratorImpType & m = it[i]->_imp;
-         if (m._owner) o << table_of(m._owner); else o << "x";
+         // an iterator that never registered keeps a plain pointer to its table (never followed once the cookie is NULL)
+         if (m._flags & HTIT_FLAG_NOREGISTER) o << "u"; else if (m._owner) o << table_of(m._owner); else o << "x";
          o << "/";
          if (m._iterCookie) {if (m._owner) o << static_cast<const EntryT *>(m._iterCookie)->_key; else o << "?";} else o << "_";
          o << "/" << ((m._flags & HTIT_FLAG_BACKWARDS) ? "b" : "f") << "/" << ((m._flags & HTIT_FLAG_NOREGISTER) ? "n" : "r") << "/";
